@@ -13,7 +13,8 @@ Record c09case := {
   c_atoChk : Z;               (* ato in exact milliseconds: enters the availability decision *)
   c_atoMicro : option Z;      (* ato in exact microseconds, None = +Inf: enters the request guard *)
   c_guard : bool;             (* the tree has the request guard of chunked mode (read from the source) *)
-  c_guardOK : bool;           (* [ato >= 0 && ato*1000 < float64(SegmentDurMS)] as float64 evaluates it (by the harness,
+  c_guardRounded : bool;      (* ... and it compares the offset rounded to milliseconds (f0e7b4c; read from the source) *)
+  c_guardOK : bool;           (* the guard condition of the tree as float64 evaluates it (by the harness,
                                  same Go expression); must equal the exact [chunkGuardOK] except when the offset is
                                  exactly the segment duration, where the float product can fall below it *)
   c_ts : Z;
@@ -58,8 +59,10 @@ Definition case_ok (c : c09case) : bool :=
   (st =? o_status c) && list_eqb view_eqb cs (o_chunks c) &&
   (* the millisecond value the Go expression gives is the rounded offset *)
   match c_atoMicro c with Some a => negb (is_l1 c) || (c_atoMS c =? roundMilli a) | None => true end &&
-  (negb (is_l1 c) || Bool.eqb (c_guardOK c) (chunkGuardOK (c_atoMicro c) (c_segDurMS c)) ||
-   match c_atoMicro c with Some a => a =? c_segDurMS c * 1000 | None => false end) &&
+  (negb (is_l1 c) ||
+   if c_guardRounded c then Bool.eqb (c_guardOK c) (chunkGuardRounded (c_atoMicro c) (c_segDurMS c))
+   else Bool.eqb (c_guardOK c) (chunkGuardOK (c_atoMicro c) (c_segDurMS c)) ||
+        match c_atoMicro c with Some a => a =? c_segDurMS c * 1000 | None => false end) &&
   match o_writes c with
   | [] => true
   | ws => list_eqb (fun a w => a <=? w) av ws
